@@ -20,6 +20,9 @@ SPECS = [
     {'conv': 'ugrid', 'ny': 2, 'nx': 3, 'split': [[0, 1]], 'merge': [[1, 0]]},
     # 1-D latitude / longitude coordinates that are not named after their dimensions: lat(y), lon(x)
     {'conv': 'cf1d', 'ny': 3, 'nx': 4, 'ydim': 'y', 'xdim': 'x'},
+    # a cell without geometry BEFORE a self-intersecting (bow-tie) cell: the bow-tie has no patch, every other complete cell has one
+    {'conv': 'cf2d', 'ny': 3, 'nx': 4, 'bounds': 'vars', 'holes': [[0, 1]], 'bowtie': [1, 2]},
+    {'conv': 'cf2d', 'ny': 3, 'nx': 4, 'bounds': 'vars', 'holes': [[0, 0], [0, 2]], 'bowtie': [2, 3]},
 ]
 
 
@@ -29,8 +32,13 @@ def gen(tier, seed):
 
 
 def test(inp):
-    spec = inp['spec']
+    spec = dict(inp['spec'])
+    bowtie = spec.pop('bowtie', None)
     ds = datasets.build(spec)
+    if bowtie:
+        for name in ('lon_bnds', 'lat_bnds'):
+            v = ds[name].values
+            v[bowtie[0], bowtie[1], [1, 2]] = v[bowtie[0], bowtie[1], [2, 1]]          # swap two corners
     ems = ds.ems
     with warnings.catch_warnings():
         warnings.simplefilter('ignore')
@@ -40,6 +48,19 @@ def test(inp):
     fdims = list(ems.grid_dimensions[ems.default_grid_kind])
     lin = numpy.arange(size, dtype=float).reshape(shape) * 10 + 3
     present = [n for n in range(size) if polys[n] is not None]
+    if spec['conv'] in ('cf2d', 'cf1d') and (spec.get('bounds') or spec['conv'] == 'cf1d'):
+        # which cells have geometry is a fact about the dataset: complete corners that form a valid outline (independent of the convention)
+        import shapely
+        from harness.native.C06 import corners_oracle
+        corners = corners_oracle(spec)
+        if bowtie:
+            n_b = bowtie[0] * shape[1] + bowtie[1]
+            cb = list(corners[n_b])
+            cb[1], cb[2] = cb[2], cb[1]
+            corners[n_b] = cb
+        expected = [n for n, r in enumerate(corners) if r is not None and shapely.Polygon(r).is_valid]
+        if present != expected:
+            return f'cells with a polygon {present}; the cells with complete, valid outlines are {expected}'
     variants = {
         'by name': ('marker', ds.assign(marker=(fdims, lin))),
         'transposed': ('marker', ds.assign(marker=(fdims[::-1], lin.T.copy()))),
